@@ -115,17 +115,11 @@ impl UnclaimedSender {
     /// # }
     /// ```
     pub async fn claim(mut self) -> Result<Sender, Error> {
+        self.inner.begin_claim();
+        let (capacity_added, capacity) = self.client().claim_sender(self.cookie()).await?;
         self.inner.set_claimed();
 
-        match self.client().claim_sender(self.cookie()).await {
-            Ok((capacity_added, capacity)) => Ok(Sender::new(self.inner, capacity_added, capacity)),
-
-            Err(e) => {
-                // The end was not claimed and must thus not be closed as a claimed one.
-                self.inner.set_closed();
-                Err(e)
-            }
-        }
+        Ok(Sender::new(self.inner, capacity_added, capacity))
     }
 }
 
@@ -241,16 +235,15 @@ impl UnclaimedReceiver {
     /// # }
     /// ```
     pub async fn claim(mut self, capacity: u32) -> Result<Receiver, Error> {
+        self.inner.begin_claim();
+
+        let (items, max_capacity) = self
+            .client()
+            .claim_receiver(self.cookie(), capacity)
+            .await?;
+
         self.inner.set_claimed();
 
-        match self.client().claim_receiver(self.cookie(), capacity).await {
-            Ok((items, max_capacity)) => Ok(Receiver::new(self.inner, items, max_capacity)),
-
-            Err(e) => {
-                // The end was not claimed and must thus not be closed as a claimed one.
-                self.inner.set_closed();
-                Err(e)
-            }
-        }
+        Ok(Receiver::new(self.inner, items, max_capacity))
     }
 }
